@@ -20,6 +20,7 @@ import (
 	"sync"
 	"sync/atomic"
 	"syscall"
+	"time"
 )
 
 // On reports whether the hooks are compiled in.
@@ -123,6 +124,14 @@ func Digest(b []byte) BodyDigest {
 	return BodyDigest{CRC: crc32.ChecksumIEEE(b), Len: len(b), Pre: string(pre)}
 }
 
+var lookupHeartbeat int64
+
+// SetLookupHeartbeat overrides nsqd's hard-coded 15 s nsqlookupd heartbeat for daemons started afterwards.
+func SetLookupHeartbeat(d time.Duration) { atomic.StoreInt64(&lookupHeartbeat, int64(d)) }
+
+// LookupHeartbeat returns the override (0 = none); also settable with VERIF_LOOKUP_HEARTBEAT_MS.
+func LookupHeartbeat() time.Duration { return time.Duration(atomic.LoadInt64(&lookupHeartbeat)) }
+
 // Yield is a scheduling point between two critical sections.
 func Yield(point string, key interface{}) {
 	g, _ := gate.Load().(func(string, interface{}))
@@ -160,6 +169,11 @@ func init() {
 			fileF = f
 			fileW = bufio.NewWriter(f)
 			atomic.StoreInt32(&enabled, 1)
+		}
+	}
+	if ms := os.Getenv("VERIF_LOOKUP_HEARTBEAT_MS"); ms != "" {
+		if n, err := strconv.ParseInt(ms, 10, 64); err == nil {
+			lookupHeartbeat = n * int64(time.Millisecond)
 		}
 	}
 	if c := os.Getenv("VERIF_CRASH"); c != "" {
